@@ -551,6 +551,34 @@ func c17R4(c *Ctx) {
 		c.undecided("C17.R4", "no caller of the word classifier found")
 	} else {
 		c.fn(split)
+		// every element the splitter builds carries the classifier's verdict on its word: no word is typed by its position
+		{
+			sx := w.expander(split)
+			clsName := cls.Name
+			if i := strings.LastIndex(clsName, "."); i >= 0 {
+				clsName = clsName[i+1:]
+			}
+			nEl := 0
+			walkNoLit(split.Body, func(n ast.Node) bool {
+				cl, ok := n.(*ast.CompositeLit)
+				if !ok {
+					return true
+				}
+				tv, ok := info.Types[cl]
+				if !ok || !strings.HasSuffix(typeStr(tv.Type), "CommandStatementElement") {
+					return true
+				}
+				nEl++
+				ex := litField(cl, "Expression")
+				es := ""
+				if ex != nil {
+					es = sx.str(ex)
+				}
+				okEl := strings.Contains(es, "."+clsName+"(") || strings.HasPrefix(es, clsName+"(")
+				c.ob("C17.R4", split.Name+"/every-word-classified#"+itoa(nEl), w.Pos(cl.Pos()), okEl, map[bool]string{true: "the element's value is the classifier's verdict on the word", false: "an element is built as " + shorten(es, 90) + ", without the word classifier: the type a word is delivered with would depend on where it stands (the text of a command is split once per run of text between its {expressions}), not on what was written"}[okEl])
+				return true
+			})
+		}
 		// words come from splitting on a single space
 		okSplit := false
 		walkNoLit(split.Body, func(n ast.Node) bool {
